@@ -21,6 +21,14 @@ impl<'a> ByteReader<'a> {
         result
     }
 
+    /// Reads one byte, or returns `None` at the end of the data.
+    pub fn try_read(&mut self) -> Option<u8> {
+        let result = *self.data.get(self.cursor)?;
+        self.cursor += 1;
+
+        Some(result)
+    }
+
     pub fn read_u16_le(&mut self) -> u16 {
         let result = u16::from_le_bytes([self.data[self.cursor], self.data[self.cursor + 1]]);
         self.cursor += size_of::<u16>();
@@ -40,11 +48,20 @@ impl<'a> ByteReader<'a> {
         result
     }
 
-    pub fn read_bytes(&mut self, size: usize) -> &[u8] {
-        let result = &self.data[self.cursor..self.cursor + size];
-        self.cursor += size;
+    /// Reads a little-endian `f32`, or returns `None` when fewer than four bytes are left.
+    pub fn try_read_f32_le(&mut self) -> Option<f32> {
+        let bytes = self.try_read_bytes(size_of::<f32>())?;
 
-        result
+        Some(f32::from_le_bytes(bytes.try_into().ok()?))
+    }
+
+    /// Reads `size` bytes, or returns `None` when fewer are left.
+    pub fn try_read_bytes(&mut self, size: usize) -> Option<&'a [u8]> {
+        let end = self.cursor.checked_add(size)?;
+        let result = self.data.get(self.cursor..end)?;
+        self.cursor = end;
+
+        Some(result)
     }
 
     pub fn align(&mut self, align: usize) {
